@@ -107,6 +107,12 @@ func (x *strans) assignTo(lhs ast.Expr, define bool, mk func(want string) sval, 
 			if ti.Kind == "map" && val.lean != "GoMap.empty" {
 				fail("local %s would alias a map (Go maps are references; the translation copies values)", l.Name)
 			}
+			if ti.Kind == "recv" {
+				fail("local %s would alias the receiver", l.Name)
+			}
+			if ti.Kind == "list" && identRe.FindString(val.lean) == val.lean {
+				fail("local %s would alias the slice %s (shared backing array)", l.Name, val.lean)
+			}
 			en2, lean := en.declare(l.Name, val.typ)
 			return "let " + lean + " : " + ti.Lean + " := " + val.lean + "\n", en2
 		}
@@ -118,6 +124,12 @@ func (x *strans) assignTo(lhs ast.Expr, define bool, mk func(want string) sval, 
 		}
 		val := x.coerce(mk(v.typ), v.typ)
 		x.noAlias(v.typ, val.lean, v.lean)
+		if v.param && x.g.typeInfo(v.typ).Kind == "map" {
+			fail("assignment to the caller's map %s", l.Name)
+		}
+		if ki := x.g.typeInfo(v.typ).Kind; (ki == "list" && identRe.FindString(val.lean) == val.lean && val.lean != v.lean) || ki == "recv" {
+			fail("assignment to %s would alias a slice / the receiver", l.Name)
+		}
 		return "let " + v.lean + " : " + x.leanTypeOf(v.typ) + " := " + val.lean + "\n", en
 	case *ast.SelectorExpr:
 		if f, ok := x.recvField(l); ok {
@@ -213,7 +225,11 @@ func (x *strans) assign(s *ast.AssignStmt, en senv, fc *sfctx, next skont) strin
 			return x.withGuards(g0, fc, pre+text+next(en2))
 		}
 		if c, ok := rhs.(*ast.CallExpr); ok {
+			if len(s.Lhs) == 1 && !define {
+				x.appendTo = idName(s.Lhs[0])
+			}
 			v, eff := x.call(c, en)
+			x.appendTo = ""
 			if eff != nil {
 				pre, res := x.applyEffect(eff, en)
 				text, en2 := x.bindMany(s.Lhs, define, res, eff.results, en)
@@ -945,6 +961,7 @@ func translateS(g *sGroup, t *sTarget) (text string, reason string) {
 			}
 			var lean string
 			en, lean = en.declare(pn[i], pt[i])
+			en.vars[len(en.vars)-1].param = true
 			params += " (" + lean + " : " + ti.Lean + ")"
 		}
 		rn, rt := fieldNames(fd.Type.Results)
